@@ -179,6 +179,16 @@ CHECKS = {
         "iterators, and every script of the template neighbourhood is run through all predicates and Address::from_script (domain, "
         "script_pubkey, text round trip) against the specification's byte predicates.",
    note="bounded sequence length; data contents random within first-byte classes; template family of 9157 scripts."),
+ "C06": dict(
+   cat="model_checking", design="§4 C06",
+   technique="TLA+ address grammar (Display / Parse / per-network dispatch) checked exhaustively by TLC over all abstract addresses and a "
+             "near-valid string family; replayed through Address Display / FromStr / parse_with_params against independent base58check "
+             "and table-driven bech32-family encoders whose generator tables come from Checksum.tla",
+   text="TLC checks round trip in both letter cases, at-most-one-network, canonical re-display, agreement of from_str with the per-network "
+        "parsers and distinctness of the nine version bytes and six hrps; every abstract address is concretised and its Display compared "
+        "character for character with encoders that share no code with the library, and every near-valid string is parsed by every entry "
+        "point with the specification's verdict, decoded fields and canonical form compared.",
+   note="content-dependent strings excluded; bech32 (unblinded) checksum code lives in the bech32 crate, blech32 in the repository."),
 }
 NA_PENDING = "check not built yet in this round (planned, see DESIGN.md §4)"
 
